@@ -33,7 +33,8 @@ CHECKS = {
     "C07": {"harnesses": [("harness.repro", "C07_Reproducible")], "post": ("harness.repro", "post")},
     "C08": {"harnesses": [("harness.ophistory", "C08_OpHistory")]},
     "C03": {"harnesses": [("harness.matching", "C03_ClearingRound"), ("harness.matching", "C03_Continuous"),
-                          ("harness.ophistory", "C03_OpHistory"), ("harness.priority", "C03_HeapMaintenance")]},
+                          ("harness.ophistory", "C03_OpHistory"), ("harness.priority", "C03_HeapMaintenance"),
+                          ("harness.events", "C03_RoundsUnderHalt")]},
 }
 
 _L = ("bounded verification by symbolic execution of the real code: for every structural case in the stated bounds the "
